@@ -221,12 +221,14 @@ def compute_corner_cases():
     return out
 
 
-def pex_race_cases(breadths=(2, 8), slot_words=2000, slots=10):
+def pex_race_cases(breadths=(2, 8), slot_words=2000, slots=10, nsols=2):
     """Compute children that all execute PredicateExists as their first access op, on a solution set whose pre-image takes
     a while to hash: the per-VM cache of the hashes is initialised while several children are running"""
     import hashlib
     big = [(ADDR_A, ADDR_B, [[(7 * i + j) % 1000 for j in range(slot_words)] for i in range(slots)], []),
            (ADDR_C, ADDR_A, [[i] * slot_words for i in range(slots)], [])]
+    # further solutions are only data for PredicateExists (distinct predicate data, so distinct pre-images)
+    big += [(ADDR_A, ADDR_C, [[(k + 3 * i + j) % 997 for j in range(slot_words)] for i in range(slots)], []) for k in range(nsols - 2)]
     def pre(s_):
         ws = []
         for slot in s_[2]:
@@ -266,6 +268,16 @@ C05_ALPHABET = ["POP", "DUP", "DUPF", "SWAP", "SWAPI", "SEL", "SLTR", "REP", "RE
                 "DLEN", "DSLT", "THIS", "THISC", "PEX", "SHA2", "KRNG", "KREX", "PKRNG", "PKREX", "COM", "COME",
                 "LODP", "LODPR"]
 C05_PUSHES = [I64_MIN, -1, 0, 1, 2, 3, 63, 64, 4096, I64_MAX]
+
+
+PER_YIELDS = [0, 1, 2, 3, 4095, 4096, 4097, 1 << 32, (1 << 63), (1 << 64) - 1]
+
+
+def yield_oracles(rng, cases, k):
+    """`GasLimit::per_yield` is a public field of the limit given to every execution and has no observable effect: a sample of the
+    cases is re-run with unusual values (0, 1, around the default, u64::MAX) and must give what the default gives"""
+    pick = rng.sample(cases, min(k, len(cases)))
+    return [f"o_yield {len(PER_YIELDS)} " + " ".join(map(str, PER_YIELDS)) + " " + c for c in pick if c.startswith("prog ")]
 
 
 def c05_cases(rng, tier):
@@ -354,6 +366,7 @@ def c05_cases(rng, tier):
         cases.append(case(raw=raw, mode="bytes", stack=rand_stack(rng), sols=RICH_SOLS, entries=ents))
     cases += op1_cases(rng, tier)
     oracles = [as_oracle(c, "o_steps") for c in cases]
+    oracles += yield_oracles(rng, cases, 150 if tier == "quick" else 3000)
     return cases, oracles
 
 
@@ -583,6 +596,7 @@ def c07_cases(rng, tier):
         table = tuple((rng.choice(_rows)["opcode"], rng.choice([0, 1, 9, 1 << 62])) for _ in range(rng.randrange(0, 3)))
         cases.append(case(ops_, stack=rand_stack(rng), cost=(c, table), limit=lim, sols=RICH_SOLS))
     oracles = [as_oracle(c, "o_gas") for c in cases]
+    oracles += yield_oracles(rng, cases, 150 if tier == "quick" else 3000)
     return cases, oracles
 
 
